@@ -329,7 +329,9 @@ prop(
             (["./plugin/output/elasticsearch"], r"^(\(\*Plugin\)\.(sendSplit|appendIndexName|appendEvent|out|out\$1|Start|Start\$1)|appendEscaped)$"),
             (["./plugin/output/http", "./pipeline"], r"^(\(\*Plugin\)\.(sendSplit|out|out\$1)|\(\*(Raw|JSON)Encoder\)\.Encode)$"),
             (["./plugin/output/kafka", "./pipeline"], r"^\(\*Plugin\)\.(out|out\$1)$"),
-            (["./plugin/output/gelf"], r"^\(\*Plugin\)\.(formatExtraField|makeTimestampField)$")],
+            (["./plugin/output/gelf"], r"^\(\*Plugin\)\.(formatExtraField|makeTimestampField)$"),
+            (["./plugin/output/splunk"], r"^\(\*Plugin\)\.out\$1$"),
+            (["./plugin/output/file"], r"^\(\*Plugin\)\.createNew$")],
     canaries=[("./plugin/output/http", "replay/C19/zz_raw_encoder_test.go", "TestVerifRawEncoderKeepsEarlierEvents"),
               ("./plugin/output/gelf", "replay/C19/zz_gelf_inf_timestamp_test.go", "TestVerifGelfTimestampIsJSONNumber"),
               ("./plugin/output/elasticsearch", "replay/C19/zz_replay_c19_test.go", "TestVerifReplayC19IndexName")],
@@ -359,7 +361,7 @@ prop(
     level="other",
     design_ref="DESIGN.md section 3, C17",
     groups=[(["./plugin/action/mask"], r"^\(\*Mask\)\.(maskValue|maskSection)$"), (["./cfg"], r"^VerifyGroupNumbers$"), (["./cfg/matchrule"], r"^\(\*Rule\)\.(Match|match|Prepare)$"),
-            (["./plugin/action/mask", "./pipeline"], r"^(addFieldsToTree|\(\*Plugin\)\.(traverseTree|processMask))$")],
+            (["./plugin/action/mask", "./pipeline"], r"^(addFieldsToTree|\(\*Plugin\)\.(traverseTree|processMask|Do|gatherFieldMasksTree\$[12]))$")],
     canaries=[("./plugin/action/mask", "replay/C17/zz_replay_c17_test.go", "TestVerifReplayC17Tail"), ("./plugin/action/mask", "replay/C17/zz_cut_to_empty_test.go", "TestVerifCutToEmptyStaysCut"),
               ("./plugin/action/mask", "replay/C17/zz_replay_c17_test.go", "TestVerifReplayC17Order"), ("./plugin/action/mask", "replay/C17/zz_group_order_test.go", "TestVerifMaskGroupOrder")],
     claim=(
